@@ -159,6 +159,14 @@ type Engine struct {
 	shared   map[*value]string // C20: addresses of objects tagged as shared
 	sharedW  []string
 	observed []observedVec
+	dom      map[int]*bitset256 // per 8-bit variable: values still allowed by single-variable facts
+	entangled map[int]bool      // variables occurring in multi-variable path-condition literals
+	ttCache  map[int]*bitset256
+	DomDecided int
+	uf       map[int]int // union-find over variable ids (constraint independence)
+	pcRep    []int       // per pc literal: one of its variables (-1: none)
+	noSlice  bool
+	SlicedOut int
 }
 
 func newEngine(x *Explorer) (*Engine, error) {
@@ -176,6 +184,10 @@ func (e *Engine) resetPath(prefix []dec) {
 	e.trail = e.trail[:0]
 	e.pc = e.pc[:0]
 	e.pcSet = map[int]bool{}
+	e.dom = map[int]*bitset256{}
+	e.uf = map[int]int{}
+	e.pcRep = e.pcRep[:0]
+	e.entangled = map[int]bool{}
 	e.newWork = nil
 	e.inputs = nil
 	e.nameCtr = map[string]int{}
@@ -206,13 +218,162 @@ func (e *Engine) addPC(c *Term) {
 		return
 	}
 	e.pcSet[c.ID] = true
+	if tt := e.truthTable(c); tt != nil {
+		d := e.dom[c.sv.ID]
+		if d == nil {
+			d = fullSet(c.sv.W)
+			e.dom[c.sv.ID] = d
+		}
+		d.and(tt)
+		// single-variable facts live in the domain; the solver still needs them
+		// when the variable is (or becomes) entangled, so they stay in pc too
+	} else {
+		for _, v := range e.st.VarsOf(c) {
+			e.entangled[v] = true
+		}
+	}
+	vs := e.st.VarsOf(c)
+	rep := -1
+	if len(vs) > 0 {
+		rep = vs[0]
+		for _, v := range vs[1:] {
+			e.union(rep, v)
+		}
+	}
+	if c.Op == OpUF || containsUF(c) {
+		rep = -1 // uninterpreted functions relate literals beyond shared variables
+	}
+	e.pcRep = append(e.pcRep, rep)
 	e.pc = append(e.pc, c)
+}
+
+func containsUF(t *Term) bool {
+	if t.hasUF == 1 {
+		return true
+	}
+	if t.hasUF == 2 {
+		return false
+	}
+	r := t.Op == OpUF
+	for _, a := range t.Args {
+		if r {
+			break
+		}
+		r = containsUF(a)
+	}
+	if r {
+		t.hasUF = 1
+	} else {
+		t.hasUF = 2
+	}
+	return r
+}
+
+type bitset256 [4]uint64
+
+func fullSet(w int) *bitset256 {
+	var b bitset256
+	n := 1 << uint(w)
+	for i := 0; i < n; i++ {
+		b[i>>6] |= 1 << uint(i&63)
+	}
+	return &b
+}
+
+func (b *bitset256) and(o *bitset256) {
+	for i := range b {
+		b[i] &= o[i]
+	}
+}
+
+func (b *bitset256) subsetOf(o *bitset256) bool {
+	for i := range b {
+		if b[i]&^o[i] != 0 {
+			return false
+		}
+	}
+	return true
+}
+
+func (b *bitset256) disjoint(o *bitset256) bool {
+	for i := range b {
+		if b[i]&o[i] != 0 {
+			return false
+		}
+	}
+	return true
+}
+
+// truthTable returns the set of values of c's single (<= 8 bit) variable for
+// which the Boolean term c holds, or nil if c is not of that shape.
+func (e *Engine) truthTable(c *Term) *bitset256 {
+	if c.W != 0 || c.sv == nil || c.sv.W > 8 {
+		return nil
+	}
+	if e.ttCache == nil {
+		e.ttCache = map[int]*bitset256{}
+	}
+	if t, ok := e.ttCache[c.ID]; ok {
+		return t
+	}
+	var b bitset256
+	n := 1 << uint(c.sv.W)
+	env := map[string]uint64{}
+	for x := 0; x < n; x++ {
+		env[c.sv.Name] = uint64(x)
+		if e.st.Eval(c, env, nil) != 0 {
+			b[x>>6] |= 1 << uint(x&63)
+		}
+	}
+	e.ttCache[c.ID] = &b
+	return &b
+}
+
+// domDecide decides a single-variable condition from the variable's domain:
+// +1 implied, -1 refuted, 2 both values possible and exact (variable not
+// entangled), 0 unknown.
+func (e *Engine) domDecide(c *Term) int {
+	tt := e.truthTable(c)
+	if tt == nil {
+		return 0
+	}
+	d := e.dom[c.sv.ID]
+	if d == nil {
+		d = fullSet(c.sv.W)
+	}
+	if d.subsetOf(tt) {
+		return 1
+	}
+	if d.disjoint(tt) {
+		return -1
+	}
+	if !e.entangled[c.sv.ID] {
+		return 2
+	}
+	return 0
+}
+
+// simplifyCond folds a condition to true/false when the domains decide it.
+func (e *Engine) simplifyCond(c *Term) *Term {
+	switch e.domDecide(c) {
+	case 1:
+		return e.st.True
+	case -1:
+		return e.st.False
+	}
+	return c
 }
 
 // implied decides c syntactically from the path condition: +1 true, -1 false, 0 unknown.
 func (e *Engine) implied(c *Term) int {
 	if e.pcSet[c.ID] {
 		return 1
+	}
+	switch e.domDecide(c) {
+	case 1:
+		return 1
+	case -1:
+		return -1
 	}
 	if e.pcSet[e.st.BNot(c).ID] {
 		return -1
@@ -256,11 +417,54 @@ func (e *Engine) fresh(prefix string) string {
 	return fmt.Sprintf("%s#%d", prefix, n)
 }
 
+// check decides pc ∧ extra. Because the path condition is kept satisfiable,
+// only the literals sharing variables (transitively) with extra matter
+// (constraint-independence slicing); the others are left out of the query.
 func (e *Engine) check(extra ...*Term) Result {
+	if len(extra) == 0 || e.noSlice {
+		return e.checkFull(extra...)
+	}
+	roots := map[int]bool{}
+	for _, x := range extra {
+		for _, v := range e.st.VarsOf(x) {
+			roots[e.find(v)] = true
+		}
+	}
+	// extra literals may connect components with each other
+	lits := make([]*Term, 0, 16)
+	for k, l := range e.pc {
+		r := e.pcRep[k]
+		if r < 0 || roots[e.find(r)] {
+			lits = append(lits, l)
+		}
+	}
+	lits = append(lits, extra...)
+	e.SlicedOut += len(e.pc) + len(extra) - len(lits)
+	return e.sv.Check(lits)
+}
+
+func (e *Engine) checkFull(extra ...*Term) Result {
 	lits := make([]*Term, 0, len(e.pc)+len(extra))
 	lits = append(lits, e.pc...)
 	lits = append(lits, extra...)
 	return e.sv.Check(lits)
+}
+
+func (e *Engine) find(v int) int {
+	p, ok := e.uf[v]
+	if !ok || p == v {
+		return v
+	}
+	r := e.find(p)
+	e.uf[v] = r
+	return r
+}
+
+func (e *Engine) union(a, b int) {
+	ra, rb := e.find(a), e.find(b)
+	if ra != rb {
+		e.uf[ra] = rb
+	}
 }
 
 func (e *Engine) fork(d dec) {
@@ -307,6 +511,13 @@ func (e *Engine) branch(c *Term) bool {
 		e.trail = append(e.trail, dec{K: 'b', B: false, Forced: true})
 		return false
 	}
+	if e.domDecide(c) == 2 {
+		e.DomDecided++
+		e.fork(dec{K: 'b', B: false})
+		e.trail = append(e.trail, dec{K: 'b', B: true})
+		e.addPC(c)
+		return true
+	}
 	rT := e.check(c)
 	if rT == Unsat {
 		e.trail = append(e.trail, dec{K: 'b', B: false, Forced: true})
@@ -349,6 +560,7 @@ func (e *Engine) concretize(t *Term, what string) uint64 {
 	if limit == 0 {
 		limit = 1024
 	}
+	e.sv.define(t)
 	for {
 		r := e.check(block...)
 		if r != Sat {
@@ -359,7 +571,7 @@ func (e *Engine) concretize(t *Term, what string) uint64 {
 		}
 		m, err := e.sv.Values([]*Term{t})
 		if err != nil {
-			e.note("concretize-getvalue-error")
+			e.note("concretize-getvalue-error: " + err.Error())
 			break
 		}
 		var v uint64
@@ -420,18 +632,28 @@ func (e *Engine) assume(c *Term) {
 	if c.IsFalse() {
 		panic(pathAbort{"infeasible", "assumption is false"})
 	}
+	if e.noBranch > 0 {
+		panic(ifConvBail{})
+	}
 	if e.pos < len(e.prefix) {
-		// already known feasible on this prefix? Not recorded; re-check cheaply
+		d := e.prefix[e.pos]
+		if d.K != 'a' {
+			panic(fmt.Sprintf("engine: nondeterministic replay (expected assume, prefix has %c at %d)", d.K, e.pos))
+		}
+		e.pos++
+		e.trail = append(e.trail, d)
+		e.addPC(c)
+		return
 	}
 	switch e.implied(c) {
-	case 1:
-		return
 	case -1:
 		panic(pathAbort{"infeasible", "assumption contradicts path condition"})
+	case 0:
+		if e.domDecide(c) != 2 && e.check(c) == Unsat {
+			panic(pathAbort{"infeasible", "assumption contradicts path condition"})
+		}
 	}
-	if e.check(c) == Unsat {
-		panic(pathAbort{"infeasible", "assumption contradicts path condition"})
-	}
+	e.trail = append(e.trail, dec{K: 'a'})
 	e.addPC(c)
 }
 
@@ -461,9 +683,31 @@ func trailString(tr []dec) string {
 			fmt.Fprintf(&sb, "v%d.", d.V)
 		case 'c':
 			fmt.Fprintf(&sb, "c%d.", d.V)
+		case 'a':
+			sb.WriteByte('a')
 		}
 	}
 	return sb.String()
+}
+
+// predefine makes sure everything model() will ask about is already declared
+// (a declaration after check-sat invalidates the solver's model).
+func (e *Engine) predefine() {
+	for _, in := range e.inputs {
+		if in.Kind != "bytes" {
+			continue
+		}
+		for j := 0; j < in.N; j++ {
+			if v, ok := e.st.Vars[fmt.Sprintf("%s[%d]", in.Name, j)]; ok {
+				e.sv.define(v)
+			}
+		}
+	}
+	for _, o := range e.observed {
+		for _, t := range o.vals {
+			e.sv.define(t)
+		}
+	}
 }
 
 // model extracts a full input assignment after a Sat answer.
@@ -544,6 +788,7 @@ func (e *Engine) assert(c *Term, msg string) {
 		return
 	}
 	nc := e.st.BNot(c)
+	e.predefine()
 	r := e.check(nc)
 	if r == Unknown {
 		// escalate: standalone run with the long timeout
@@ -581,6 +826,16 @@ func (e *Engine) assert(c *Term, msg string) {
 		x.mu.Unlock()
 		e.addPC(c)
 	case Sat:
+		// the sliced query has no values for variables outside the slice:
+		// re-decide on the full path condition for the counterexample
+		if r2 := e.checkFull(nc); r2 != Sat {
+			x.mu.Lock()
+			x.Inconclusive++
+			x.Notes["assert: sliced query sat but full query "+r2.String()]++
+			x.mu.Unlock()
+			e.addPC(c)
+			return
+		}
 		m, err := e.model()
 		if err != nil {
 			x.mu.Lock()
